@@ -89,7 +89,7 @@ func checkC11(w *World, r *Report) {
 		}
 		found, ok, why := everyIterationCalls(f, func(c ssa.CallInstruction) bool {
 			sc := c.Common().StaticCallee()
-			return sc != nil && sc.Name() == "set" && sc.Signature.Recv() != nil && strings.Contains(sc.Signature.Recv().Type().String(), "featuresMap")
+			return sc != nil && nm(sc) == "set" && sc.Signature.Recv() != nil && strings.Contains(sc.Signature.Recv().Type().String(), "featuresMap")
 		})
 		if !found {
 			panic(undecided{"checkFeatures: recording of the verdict"})
@@ -340,7 +340,7 @@ func c11OrderedPhasesRule(w *World, r *Report) {
 		for _, a := range assignsToField(p, fd.Body, modnames) {
 			if as, isA := a.(*ast.AssignStmt); isA && len(as.Rhs) == 1 {
 				if ce, isC := as.Rhs[0].(*ast.CallExpr); isC {
-					if f := calleeOf(p, ce); f != nil && f.Name() == "Sort" && strings.Contains(f.FullName(), "tsort") {
+					if f := calleeOf(p, ce); f != nil && nm(f) == "Sort" && strings.Contains(f.FullName(), "tsort") {
 						ok = true
 					}
 				}
@@ -458,7 +458,7 @@ func c11Recursion(w *World, r *Report) {
 		walks := false
 		ast.Inspect(hfd.Body, func(y ast.Node) bool {
 			if c2, ok := y.(*ast.CallExpr); ok {
-				if g := calleeOf(hp, c2); g != nil && g.Name() == "Children" {
+				if g := calleeOf(hp, c2); g != nil && nm(g) == "Children" {
 					walks = true
 				}
 			}
@@ -487,7 +487,7 @@ func c11Recursion(w *World, r *Report) {
 				adds := false
 				ast.Inspect(inner.Body, func(y ast.Node) bool {
 					if ce, ok := y.(*ast.CallExpr); ok {
-						if f := calleeOf(p, ce); f != nil && f.Name() == "AddEdge" {
+						if f := calleeOf(p, ce); f != nil && nm(f) == "AddEdge" {
 							adds = true
 						}
 					}
